@@ -569,7 +569,7 @@ func (f *Formatter) formatReturnStatement(stmt *ast.ReturnStatement) string {
 			suffix = ")"
 		}
 		buf.WriteString(prefix)
-		buf.WriteString(stmt.ReturnExpression.String())
+		buf.WriteString(f.formatExpression(stmt.ReturnExpression).String())
 		buf.WriteString(suffix)
 		if v := f.formatComment(stmt.ParenthesisTrailingComments, "", 0); v != "" {
 			buf.WriteString(" " + v)
